@@ -20,7 +20,7 @@ ASSUMPTIONS = [
 
 def plan(tier):
     if tier == "quick":
-        return {"hostile": 6000, "steered": 3000, "start": 1200}
+        return {"hostile": 4500, "steered": 2200, "start": 1000}
     return {"hostile": 400000, "steered": 240000, "start": 80000}
 
 
@@ -31,4 +31,4 @@ def floors(tier):
 
 
 def run_case(mon, kind, idx, rng):
-    common.invariant_episode(mon, PID, CLS, snap.inv_directed, kind, rng)
+    common.invariant_episode(mon, PID, CLS, lambda D: snap.inv_directed(D, deep=True), kind, rng)
